@@ -26,6 +26,7 @@ def run(F, X, rep):
     S.s7_generation_guard(C, rep, "C09-G")
     # reading the image back must not itself fail or misreport on an image an interrupted run can leave
     S.w4_fetch_mapping(C, rep, "C09-F")
+    S.rt_records_roundtrip(C, rep, "C09-R")
     # lifecycle side of the recovery protocol
     R.s4_mark_failed_guards(C, rep, "C09-L")
     R.a2_pending_pay_only_after_none(C, rep, "C09-L")
